@@ -28,16 +28,25 @@ DQ(q, nm) == LET idx == {t \in 1..Len(q.vars) : q.vars[t] = nm} IN
 Grad(qs, qv, e, R, nm) == FSumL([k \in 1..Len(e) |-> IF e[k] = 0 THEN FZ
                                    ELSE FMul(FOfInt(e[k]), FMul(FDiv(R, qv[k]), DQ(qs[k], nm)))])
 GradScale(qs, qv, e, R, nm) == FSumL([k \in 1..Len(e) |-> IF e[k] = 0 THEN FZ ELSE FAbs(FMul(FDiv(R, qv[k]), DQ(qs[k], nm)))])
-Hess(qs, qv, e, R, n1, n2) ==
+\* d2 q_k / d name1 d name2 : non-zero only for a quote that is itself a second-order number
+HQ(q, n1, n2) == IF ~("h" \in DOMAIN q) \/ q.h = <<>> THEN FZ
+                 ELSE LET i1 == {t \in 1..Len(q.vars) : q.vars[t] = n1} i2 == {t \in 1..Len(q.vars) : q.vars[t] = n2} IN
+                      IF i1 = {} \/ i2 = {} THEN FZ ELSE q.h[CHOOSE t \in i1 : TRUE][CHOOSE t \in i2 : TRUE]
+\* first-order response of the rate to each quote times that quote's own curvature
+HessOwn(qs, qv, e, R, n1, n2) == FSumL([k \in 1..Len(e) |-> IF e[k] = 0 THEN FZ ELSE FMul(FOfInt(e[k]), FMul(FDiv(R, qv[k]), HQ(qs[k], n1, n2)))])
+HessOwnScale(qs, qv, e, R, n1, n2) == FSumL([k \in 1..Len(e) |-> IF e[k] = 0 THEN FZ ELSE FAbs(FMul(FDiv(R, qv[k]), HQ(qs[k], n1, n2)))])
+HessCross(qs, qv, e, R, n1, n2) ==
   FSumL([k \in 1..Len(e) |-> IF e[k] = 0 THEN FZ ELSE
      FSumL([m \in 1..Len(e) |-> IF e[m] = 0 THEN FZ ELSE
         LET c == e[k] * (e[m] - (IF k = m THEN 1 ELSE 0)) IN
         IF c = 0 THEN FZ ELSE
         FMul(FOfInt(c), FMul(FDiv(FDiv(R, qv[k]), qv[m]), FMul(DQ(qs[k], n1), DQ(qs[m], n2))))])])
-HessScale(qs, qv, e, R, n1, n2) ==
+HessCrossScale(qs, qv, e, R, n1, n2) ==
   FSumL([k \in 1..Len(e) |-> IF e[k] = 0 THEN FZ ELSE
      FSumL([m \in 1..Len(e) |-> IF e[m] = 0 THEN FZ ELSE
         FAbs(FMul(FOfInt(2), FMul(FDiv(FDiv(R, qv[k]), qv[m]), FMul(DQ(qs[k], n1), DQ(qs[m], n2)))))])])
+Hess(qs, qv, e, R, n1, n2) == FAdd(HessCross(qs, qv, e, R, n1, n2), HessOwn(qs, qv, e, R, n1, n2))
+HessScale(qs, qv, e, R, n1, n2) == FAdd(HessCrossScale(qs, qv, e, R, n1, n2), HessOwnScale(qs, qv, e, R, n1, n2))
 
 \* ---- the specification's market state during validation ---------------------------------
 \* mk = [st (FXRates state record over currency NAMES), quotes (records with l, r, v, vars, g, kind, settle), order]
